@@ -183,7 +183,10 @@ def client_cases() -> List[Tuple[Any, ...]]:
     stacks: List[Tuple[Any, ...]] = [()]
     for k in (1, 2, 3):
         stacks += list(itertools.product(variants, repeat=k))
-    return [(st, kick, early) for st in stacks for kick in ("ok", "raise") for early in (False, True) if st or not early]
+    # early: False | True (kicker created before the middlewares were registered) | "reused" (the middleware
+    # objects had been registered on another broker first)
+    return [(st, kick, early) for st in stacks for kick in ("ok", "raise") for early in (False, True, "reused")
+            if st or not early]
 
 
 def run_client(cases: List[Tuple[Any, ...]], acc: Acc) -> None:
@@ -213,7 +216,8 @@ def run_client(cases: List[Tuple[Any, ...]], acc: Acc) -> None:
         f.__module__ = "mc.props.c10"
         task = b.register_task(f, task_name="c10:f")
         # a long-lived kicker created before the middlewares are registered must still run them
-        kicker = task.kicker().with_task_id("tid-1") if early_kicker else None
+        kicker = task.kicker().with_task_id("tid-1") if early_kicker is True else None
+        other_broker = B() if early_kicker == "reused" else None
         ref: List[Any] = []
         marks: List[str] = []
         for mi, (hooks, mode, rep) in enumerate(st):
@@ -238,7 +242,10 @@ def run_client(cases: List[Tuple[Any, ...]], acc: Acc) -> None:
 
             for hk in hooks:
                 methods[hk] = mk(hk)
-            b.add_middlewares(type(f"CMW{mi}", (TaskiqMiddleware,), methods)())
+            mw_obj = type(f"CMW{mi}", (TaskiqMiddleware,), methods)()
+            if other_broker is not None:
+                other_broker.add_middlewares(mw_obj)
+            b.add_middlewares(mw_obj)
         for mi, (hooks, mode, rep) in enumerate(st):
             if "pre_send" in hooks:
                 ref.append(("pre_send", mi, tuple(sorted(marks))))
@@ -309,7 +316,7 @@ def replay(obj: Dict[str, Any]) -> int:
         acc = Acc()
         case = obj["client"]
         st = tuple((tuple(eval(v[0])) if isinstance(v[0], str) else tuple(v[0]), v[1], v[2] in (True, "True")) for v in case["stack"])
-        run_client([(st, case["kick"], bool(case.get("kicker_created_before_middlewares")))], acc)
+        run_client([(st, case["kick"], case.get("kicker_created_before_middlewares"))], acc)
         for k, v in acc.violations.items():
             print(k, v["message"])
         return 1 if acc.violations else 0
